@@ -294,6 +294,10 @@ func (e *ExecutionConfig) setProposerConfigOptions(_ context.Context,
 	for _, configRelay := range config.Relays {
 		proposerRelayConfig, exists := proposerConfig.Relays[configRelay.Address]
 		if exists {
+			if proposerRelayConfig == nil {
+				// A relay listed with a null configuration has no overrides.
+				proposerRelayConfig = &ProposerRelayConfig{}
+			}
 			if !proposerRelayConfig.Disabled {
 				updateRelayConfig(configRelay, proposerRelayConfig)
 				relays = append(relays, configRelay)
@@ -306,6 +310,10 @@ func (e *ExecutionConfig) setProposerConfigOptions(_ context.Context,
 	}
 	// Add new relays.
 	for address, proposerRelayConfig := range proposerConfig.Relays {
+		if proposerRelayConfig == nil {
+			// A relay listed with a null configuration has no overrides.
+			proposerRelayConfig = &ProposerRelayConfig{}
+		}
 		if proposerRelayConfig.Disabled {
 			// A disabled relay is never used, whether or not it was inherited.
 			continue
